@@ -36,7 +36,7 @@ def scratch(patch=None):
 
 def run_demo(demo, repo_dir):
     src = open(demo).read()
-    src = re.sub(r"/tmp/seed\d?/C\d\d", repo_dir, src)
+    src = re.sub(r"/tmp/seed\d*/C\d\d", repo_dir, src)
     with tempfile.NamedTemporaryFile("w", suffix=".py", delete=False) as fp:
         fp.write(src)
         tmp = fp.name
